@@ -588,6 +588,8 @@ func (e *c10Env) invalidInputs(sc cases.ScanCase, repo *gitrepo.Repo, ri int, on
 		{"--threshold=x", "--threshold=1"}, {"--names=foo", "--names=full"}, {"--include", "/(/", "--include", "refs/heads"},
 		{"--include", "@nosuchgroup", "--include", "refs/heads"}, {"--exclude", "refs/tags", "--include", "@nosuchgroup", "--branches"},
 		{"--branches", "--no-such-flag", "--tags"},
+		// the empty string is no revision (a script passing an unset variable)
+		{""}, {"refs/heads/main", ""}, {"", "refs/heads/main"}, {"--json", "", ""},
 	} {
 		args := append([]string{"--no-progress"}, args...)
 		if strings.HasPrefix(args[1], "--progress=") {
